@@ -271,12 +271,16 @@ pub struct Pool {
     tx: Option<std::sync::mpsc::Sender<Batch>>,
     rx: Option<std::sync::mpsc::Receiver<()>>,
     pub threads_given_up: u64,
+    /// added to the allocation bound of every call (what decoding the current *type* needs
+    /// independently of the input: fixed-size arrays, default members)
+    pub extra_limit: u64,
     seq: u64,
 }
 
 impl Pool {
     pub fn new(stack_bytes: usize, ann: super::child::Announcer) -> Pool {
         let mut p = Pool {
+            extra_limit: 0,
             stack: stack_bytes,
             ann: std::sync::Arc::new(std::sync::Mutex::new(ann)),
             tx: None,
@@ -355,7 +359,7 @@ impl Pool {
                     flags: s.flags,
                     class: s.class.to_string(),
                     input: s.input.to_vec(),
-                    limit: bound(k, c, s.input.len()),
+                    limit: bound(k, c, s.input.len()).saturating_add(self.extra_limit),
                 })
                 .collect();
             self.seq += rest.len() as u64;
@@ -570,8 +574,13 @@ pub fn verdicts(dec: Decoder, class: &str, run: &Run) -> Vec<Verdict> {
         // many small requests is attributed to the decoder as a whole (the crossing request is an
         // arbitrary one of them)
         let limit = run.stats.limit.max(1);
-        let site = match run.stats.over_backtrace.as_deref().map(bt::origin) {
-            _ if run.stats.over_req < limit / 8 => Some("many_small_requests".to_string()),
+        let stack = if run.stats.over_req >= limit / 8 {
+            run.stats.over_backtrace.as_deref()
+        } else {
+            run.stats.big_backtrace.as_deref()
+        };
+        let site = match stack.map(bt::origin) {
+            None => Some("many_small_requests".to_string()),
             Some(Origin::Dust(sym)) => Some(sym),
             Some(Origin::Harness(sym)) => {
                 out.push(Verdict::Inconclusive(format!("allocation bound crossed in harness frame {}", sym)));
